@@ -1374,10 +1374,10 @@ package apd
 //@   pure
 
 //@ func (*Decimal).SetFloat64
-//@   trusted goes through strconv and the parser (outside the subset): assumed to write only d and to leave a well-formed value
+//@   props C17 C04 C06
+//@   exported
 //@   requires writable(d)
 //@   assigns d
-//@   outs d
 //@   ensures ret0 == d && (ret1 == nil ==> inv(d))
 
 //@ func MakeErrDecimal
